@@ -52,7 +52,11 @@ var npVerifier = &gatedVerifier{name: "np", alg: cose.AlgorithmES256}
 func followHeaders(r *npRun, parent any, h *cose.Headers) {
 	r.do("Headers.UnmarshalFromRaw", func() { hh := *h; _ = hh.UnmarshalFromRaw() })
 	r.do("Headers.MarshalProtected", func() { _, _ = h.MarshalProtected(); _, _ = h.MarshalUnprotected() })
-	r.do("Protected.accessors", func() { _, _ = h.Protected.Algorithm(); _, _ = h.Protected.Critical(); _, _ = h.Protected.PayloadHashAlgorithm() })
+	r.do("Protected.accessors", func() {
+		_, _ = h.Protected.Algorithm()
+		_, _ = h.Protected.Critical()
+		_, _ = h.Protected.PayloadHashAlgorithm()
+	})
 	for _, lbl := range []int64{cose.HeaderLabelCounterSignature, cose.HeaderLabelCounterSignatureV2} {
 		switch v := h.Unprotected[lbl].(type) {
 		case *cose.Countersignature:
@@ -105,7 +109,11 @@ func init() {
 			}
 			accepted = append(accepted, "sign1")
 			r.do("Sign1Message.MarshalCBOR", func() { _, _ = m.MarshalCBOR() })
-			r.do("Sign1Message.Verify", func() { _ = m.Verify(nil, npVerifier); _ = m.Verify([]byte{1}, npVerifier); _ = m.Verify(nil, npBuiltin) })
+			r.do("Sign1Message.Verify", func() {
+				_ = m.Verify(nil, npVerifier)
+				_ = m.Verify([]byte{1}, npVerifier)
+				_ = m.Verify(nil, npBuiltin)
+			})
 			r.do("Sign1Message.Sign(decoded)", func() { mm := m; _ = mm.Sign(rand.Reader, nil, npSigner) })
 			followHeaders(r, &m, &m.Headers)
 			followParent(r, &m)
@@ -149,7 +157,10 @@ func init() {
 			}
 			accepted = append(accepted, "sig")
 			r.do("Signature.MarshalCBOR", func() { _, _ = s.MarshalCBOR() })
-			r.do("Signature.Verify", func() { _ = s.Verify(npVerifier, []byte{0x40}, []byte{1}, nil); _ = s.Verify(npVerifier, nil, []byte{1}, nil) })
+			r.do("Signature.Verify", func() {
+				_ = s.Verify(npVerifier, []byte{0x40}, []byte{1}, nil)
+				_ = s.Verify(npVerifier, nil, []byte{1}, nil)
+			})
 			followHeaders(r, &s, &s.Headers)
 			followParent(r, &s)
 			followParent(r, s)
@@ -162,7 +173,11 @@ func init() {
 			accepted = append(accepted, "csig")
 			r.do("Countersignature.MarshalCBOR", func() { _, _ = s.MarshalCBOR() })
 			par := cose.Sign1Message{Payload: []byte{1}, Signature: []byte{2}}
-			r.do("Countersignature.Verify", func() { _ = s.Verify(npVerifier, par, nil); _ = s.Verify(npVerifier, &par, []byte{1}); _ = s.Verify(npVerifier, 42, nil) })
+			r.do("Countersignature.Verify", func() {
+				_ = s.Verify(npVerifier, par, nil)
+				_ = s.Verify(npVerifier, &par, []byte{1})
+				_ = s.Verify(npVerifier, 42, nil)
+			})
 			followHeaders(r, &s, &s.Headers)
 			followParent(r, &s)
 			followParent(r, s)
